@@ -190,6 +190,19 @@ impl RetryManager {
     ///
     /// If the tower is not currently being retried, a new entry for it is created, otherwise, the data is appended to the existing entry.
     fn add_pending_appointments(&mut self, tower_id: TowerId, locators: HashSet<Locator>) {
+        // A retrier that has failed for good does not take anything else on: it is only waiting to be removed (e.g. its
+        // tower was abandoned while it was running, and has been registered again since). Data handed to it would be
+        // dropped along with it, so it is replaced by a new one straightaway.
+        if self
+            .retriers
+            .get(&tower_id)
+            .map_or(false, |retrier| retrier.failed())
+        {
+            if let Some(retrier) = self.retriers.remove(&tower_id) {
+                retrier.remove_if_failed();
+            }
+        }
+
         if let std::collections::hash_map::Entry::Vacant(e) = self.retriers.entry(tower_id) {
             log::debug!("Creating a new entry for tower {tower_id}");
             // There may be older pending appointments nobody is taking care of anymore (e.g. the previous retrier failed
